@@ -7,13 +7,15 @@ place=$(head -1 "$md/demo_test.go" | sed -n 's/.*place in:* *\([^ ]*\).*/\1/p');
 place=${place%%[^A-Za-z0-9_./-]*}; [ "$place" = "repository" ] && place=.
 [ -d "$place" ] || place=.
 res="$md/confirm.txt"; : > "$res"
+tests=$(grep -o 'func Test[A-Za-z0-9_]*' "$md/demo_test.go" | sed 's/func //' | paste -sd'|')
+runpat="^($tests)\$"
 git apply "$md/patch.diff" || { echo "APPLY-FAIL" >> "$res"; exit 1; }
 go build ./... >> "$res" 2>&1 && echo "BUILD-OK" >> "$res" || echo "BUILD-FAIL" >> "$res"
 if go test -vet=off -count=1 ./... > "$md/suite.log" 2>&1; then echo "SUITE-PASS-WITH-PATCH" >> "$res"; else echo "SUITE-FAIL-WITH-PATCH" >> "$res"; grep -v "^ok\|no test files" "$md/suite.log" | head -20 >> "$res"; fi
 cp "$md/demo_test.go" "$place/zz_seed_demo_test.go"
-if (cd "$place" && go test -vet=off -count=1 -run 'Seed|C[0-9][0-9]' . > "$md/demo_with.log" 2>&1); then echo "DEMO-PASS-WITH-PATCH(bad)" >> "$res"; else echo "DEMO-FAIL-WITH-PATCH(good)" >> "$res"; fi
+if (cd "$place" && go test -vet=off -count=1 -run "$runpat" . > "$md/demo_with.log" 2>&1); then echo "DEMO-PASS-WITH-PATCH(bad)" >> "$res"; else echo "DEMO-FAIL-WITH-PATCH(good)" >> "$res"; fi
 git checkout -q -- .
-if (cd "$place" && go test -vet=off -count=1 -run 'Seed|C[0-9][0-9]' . > "$md/demo_without.log" 2>&1); then echo "DEMO-PASS-WITHOUT(good)" >> "$res"; else echo "DEMO-FAIL-WITHOUT(bad)" >> "$res"; fi
+if (cd "$place" && go test -vet=off -count=1 -run "$runpat" . > "$md/demo_without.log" 2>&1); then echo "DEMO-PASS-WITHOUT(good)" >> "$res"; else echo "DEMO-FAIL-WITHOUT(bad)" >> "$res"; fi
 rm -f "$place/zz_seed_demo_test.go"
 git checkout -q -- . ; git clean -fdq -e out
 echo "place=$place" >> "$res"
